@@ -84,10 +84,34 @@ func compareWithModel(c *hx.Ctx, u *Universe, ops []*ref.Op, order []int, tag st
 }
 
 func checkC03(c *hx.Ctx) {
-	c.Rule("history = create followed by every sequence (with repetition) of the 52-label operation alphabet (valid, forked, failing-delta incl. patches the JSON patch library panics on, out-of-window, bad-signature, wrong key kind, replayed, cyclic) up to the tier's length, anchored at increasing times with adversarial transaction numbers, plus two-DID histories of client-built operations anchored round by round through the real batch files, plus random long histories (half of them also with a random part of the operations supplied through WithAdditionalOperations); a history is non-trivial when the reference model applies at least two operations; distinct = distinct (history,coordinates) strings")
+	c.Rule("history = create followed by every sequence (with repetition) of the 53-label operation alphabet (valid, forked, failing-delta incl. patches the JSON patch library panics on, out-of-window, bad-signature, wrong key kind, replayed, cyclic) up to the tier's length, anchored at increasing times with adversarial transaction numbers, plus two-DID histories of client-built operations anchored round by round through the real batch files, plus random long histories (half of them also with a random part of the operations supplied through WithAdditionalOperations); a history is non-trivial when the reference model applies at least two operations; distinct = distinct (history,coordinates) strings")
 	c.Assume("the reference state machine in harness/ref/sidetree.go encodes the property statements C01-C06/C12", "Go crypto and btcec are trusted")
 	rng := c.Rng("universe")
 	p := hx.BaseProtocol()
+	// ---- state must not leak from one DID to another: run first, in one goroutine, before anything else has touched the
+	// process. DID A gets an update on top of an empty document (after a recover / create whose delta fails to apply); DIDs B,
+	// C, D are then resolved to states whose document is empty (deactivated, failed recover, mismatching create).
+	{
+		lr := rng.Split("leak")
+		for round := 0; round < 3; round++ {
+			var us []*Universe
+			for k := 0; k < 4; k++ {
+				u := NewUniverse(lr.Split(fmt.Sprint(round, k)), ref.SHA256, p, []string{"P-256", "Ed25519"})
+				u.BuildAlphabet(1015, 1025)
+				us = append(us, u)
+			}
+			first := [][]string{{"C", "rF", "u10"}, {"C", "rF", "u12Rep"}, {"C", "rJP", "u10"}}[round]
+			compareWithModel(c, us[0], placeSeq(us[0], first, 1), nil, "leak-writer")
+			for k, seq := range [][]string{{"C", "d0"}, {"C", "rF"}, {"Cdup"}} {
+				compareWithModel(c, us[k+1], placeSeq(us[k+1], seq, 1), nil, "leak-reader")
+			}
+			compareWithModel(c, us[0], placeSeq(us[0], []string{"C", "d0"}, 1), nil, "leak-reader")
+			c.Count("state_leak_probes")
+		}
+		if c.Violations() > 0 {
+			return
+		}
+	}
 	nUni := c.N(2, 4)
 	maxLen := c.N(2, 3)
 	_ = maxLen
@@ -192,8 +216,9 @@ func checkC03(c *hx.Ctx) {
 	// histories of two DIDs anchored through the REAL batch files (handler, CAS, provider, transaction processor)
 	chainsThroughBatchFiles(c, c.N(60, 1200))
 	c.Floor("batch_file_rounds", 100)
+	c.Floor("state_leak_probes", 3)
 	// floors
-	for _, l := range []string{"u01", "u02", "u12", "uF", "uW", "r01", "rB", "rI", "rF", "rW", "r12", "d0", "d1", "uJP", "rJP", "rWd", "dWd", "uPF", "u12PF", "uAka", "u12Rep", "uAkaRep"} {
+	for _, l := range []string{"u01", "u02", "u12", "uF", "uW", "r01", "rB", "rI", "rF", "rW", "r12", "d0", "d1", "uJP", "rJP", "rWd", "dWd", "uPF", "u12PF", "uAka", "u12Rep", "uAkaRep", "rND"} {
 		c.Floor("applied:"+l, 1)
 	}
 	for _, l := range []string{"u10", "u00", "uS", "uT", "uM", "uI", "uX", "uR", "r00", "rS", "dS", "dO", "dW", "dR", "rR", "uND", "rSB", "rTI", "uSF", "Cdup", "u01", "rU", "dU", "uRk", "uTc"} {
